@@ -11,6 +11,7 @@ from trimesh import primitives
 from ..core import ASSUMPTIONS, REQUIRED_CLASSES, RULES, Violation, body, check, subcheck
 from ..gen import matrices as gm
 from ..gen import meshes as gmesh
+from ..oracle import meshvalues as mv
 from .c01 import true_normals
 
 RULES["C04"] = (
@@ -127,6 +128,9 @@ def b_mesh(case, ctx):
         vc0 = np.array(m.visual.vertex_colors) if case["start"].get("colors") == "vertex" else None
         if case["warm"]:
             _ = m.face_normals, m.vertex_normals, m.volume, m.area, m.bounds, m.edges, m.face_adjacency, m.center_mass, m.moment_inertia, m.is_volume
+            # a drawn further set of derived values: whatever was computed beforehand must not matter afterwards
+            for name in case.get("warm_extra") or []:
+                mv.read(m, name)
         cmo = case["start"].get("cm_override")
         if cmo is not None:
             m.center_mass = cmo
@@ -173,6 +177,15 @@ def b_mesh(case, ctx):
             check(dn <= ntol, sig + f"|face_normals|warm={case['warm']}", f"differ from cold mesh by {dn:.3g}")
             dv = np.abs(np.asarray(m.vertex_normals) - np.asarray(cold.vertex_normals)).max() if len(F0) else 0.0
             check(dv <= ntol, sig + f"|vertex_normals|warm={case['warm']}", f"differ from cold mesh by {dv:.3g}")
+            # every other derived value equals that of a cold mesh built from the moved arrays (per-corner, per-edge and
+            # per-face values are attached to faces whose winding may just have been reversed)
+            sc = abs(det) ** (1.0 / 3.0)
+            if case["warm"] and case.get("warm_extra") and not near and 0.05 <= sc <= 50 and cmo is None:
+                s1 = float(max(np.abs(np.asarray(m.vertices)).max(), 1e-9))
+                for name in case.get("check_extra") or []:
+                    a, b = mv.read(m, name), mv.read(cold, name)
+                    ok, msg = mv.same(name, a, b, s1, unit_atol=1e-9)
+                    check(ok, sig + f"|derived_value_differs_from_cold|{name}", f"read before: {case['warm_extra']}: {msg}")
             # conditioning of the surface integrals: a mesh of extent h at distance D from the origin has face terms
             # ~D*h^2 (volume), ~D^2*h^2 (first moments), ~D^3*h^2 (second moments) that cancel to the result
             V1 = np.array(m.vertices)
@@ -491,6 +504,23 @@ def b_voxel(case, ctx):
     tol = 1e-9 * max(1.0, np.abs(want).max()) + (4e-8 * (1 + np.abs(P0).max() + np.abs(want).max()) if near else 0)
     check(P1.shape == want.shape and np.abs(P1 - want).max() <= tol, sig + "|points", f"{np.abs(P1 - want).max():.3g}")
     check(np.array_equal(np.asarray(vg.encoding.dense), dense), sig + "|encoding_changed", "")
+    # derived values of the moved grid (read before the transform in the warm cases): the box of the filled index range,
+    # carried corner by corner; volume = cells x |det|; points map back to their indices
+    idx = np.argwhere(dense)
+    lo, hi = idx.min(axis=0) - 0.5, idx.max(axis=0) + 0.5
+    corners = np.array([[x, y, z] for x in (lo[0], hi[0]) for y in (lo[1], hi[1]) for z in (lo[2], hi[2])])
+    wc = hom(M @ T0, corners)
+    wb = np.array([wc.min(axis=0), wc.max(axis=0)])
+    btol = tol * 4 + 1e-9 * np.abs(wb).max()
+    check(np.abs(np.asarray(vg.bounds) - wb).max() <= btol, sig + "|bounds", f"{np.asarray(vg.bounds).tolist()} vs box of the eight moved corners {wb.tolist()}")
+    check(np.abs(np.asarray(vg.extents) - np.ptp(wb, axis=0)).max() <= btol * 2, sig + "|extents", "")
+    inside = (P1 >= np.asarray(vg.bounds)[0] - btol).all() and (P1 <= np.asarray(vg.bounds)[1] + btol).all()
+    check(bool(inside), sig + "|bounds_do_not_contain_cell_centres", "")
+    det = abs(np.linalg.det((M @ T0)[:3, :3]))
+    check(abs(float(vg.volume) - len(idx) * det) <= 1e-9 * len(idx) * det + (1e-6 * len(idx) * det if near else 0), sig + "|volume", f"{vg.volume} vs {len(idx) * det}")
+    if det > 1e-12 and not near:
+        back = np.asarray(vg.points_to_indices(P1))
+        check(np.array_equal(back, np.asarray(vg.sparse_indices)) or {tuple(r) for r in back.tolist()} == {tuple(r) for r in idx.tolist()}, sig + "|points_to_indices", "cell centres do not map back to their indices")
 
 
 # ------------------------------------------------------------------------------- strategies
@@ -536,7 +566,10 @@ def mesh_case(draw):
         spec["cm_override"] = [draw(_f(-2, 2)) for _ in range(3)]
     entry, mat = draw(matrix_with_entry())
     second = draw(st.one_of(st.none(), gm.matrix(classes=["rigid", "similarity", "mirror", "anisotropic", "shear", "rotation"])))
-    return {"start": spec, "matrix": mat, "entry": entry, "warm": draw(st.booleans()), "second": second}
+    names = st.lists(st.sampled_from(mv.MEDIUM), min_size=1, max_size=6, unique=True)
+    extra = draw(names)
+    return {"start": spec, "matrix": mat, "entry": entry, "warm": draw(st.booleans()), "second": second, "warm_extra": extra,
+            "check_extra": sorted(set(extra + draw(names)))}
 
 
 @st.composite
